@@ -87,7 +87,7 @@ class Slot:
         self.model = model
 
 
-FLAVOURS = ("plain", "hook", "typed", "fwd", "sub", "tsub", "fs")
+FLAVOURS = ("plain", "hook", "typed", "fwd", "sub", "tsub", "fs", "thook")
 
 
 class World:
@@ -116,7 +116,7 @@ class World:
         nt = self.nt
         if flavour in ("plain", "hook", "fwd"):
             return nt.Tree
-        if flavour == "typed":
+        if flavour in ("typed", "thook"):
             return nt.TypedTree
         if flavour == "fs":
             return importlib.import_module("nutree.fs").FileSystemTree
@@ -162,7 +162,7 @@ class World:
         self.tree_seq += 1
         name = f"t{self.tree_seq}"
         cls = self.tree_class(flavour)
-        if flavour == "hook":
+        if flavour in ("hook", "thook"):
             return cls(name, calc_data_id=self._hook)
         if flavour == "fwd":
             return cls(name, forward_attrs=True)
